@@ -250,7 +250,11 @@ class SymClient(Client):
         if isinstance(it, ast.Call) and isinstance(it.func, ast.Attribute) and it.func.attr == "items" and not it.args:
             x = self.sym(it.func.value, env, ver, ctx)
             return ("tuple", ("key", x, loop_id), ("val", x, loop_id))
-        return self._elem(self.sym(it, env, ver, ctx), loop_id)
+        t = self.sym(it, env, ver, ctx)
+        if isinstance(t, tuple) and t[:2] == ("mcall", "items") and len(t) > 3 and not t[3]:
+            # `items = d.items(); for k, v in items`: the same pairs as iterating d.items() directly
+            return ("tuple", ("key", t[2], loop_id), ("val", t[2], loop_id))
+        return self._elem(t, loop_id)
 
     @staticmethod
     def _elem(x, loop_id):
